@@ -1031,7 +1031,9 @@ ConcurrentTransientHashSet<T, H, E>::end() const noexcept {
 template <typename T, typename H, typename E>
 inline ABSL_ATTRIBUTE_ALWAYS_INLINE bool
 ConcurrentTransientHashSet<T, H, E>::empty() const noexcept {
-  return _head.table.empty();
+  // tables are only chained behind the head to take an element it had no room for
+  return _head.table.empty() &&
+         _head.next.load(::std::memory_order_acquire) == nullptr;
 }
 
 template <typename T, typename H, typename E>
